@@ -38,6 +38,10 @@ def _judge_one(rep, c, o, r, fid_of):
     lang, tx = o["lang"], o["tx"]
     if lang not in ("acc", "rej") or tx not in ("acc", "rej"):
         return ("violation", f"a parser neither accepted nor reported a syntax error: compiler={lang} textx.tx={tx}")
+    if o.get("txf", tx) != tx:
+        return ("violation", f"textx.tx answers {tx} for the text {mg.text_of(c)!r} given as a string but {o['txf']} when "
+                             f"the same text is inspected under a file name used before (compiler: {lang}): "
+                             "its verdict depends on what was inspected earlier")
     if lang == tx:
         return "pass"
     l = "acc" if r["l"] else "rej"
@@ -70,6 +74,9 @@ def run(rep):
         "'the compiler parses without a syntax error' is observed on the compiler's own parser object "
         "(textx.lang.textX_parsers), i.e. before the visitor checks that also raise TextXSyntaxError",
         "compound names (A.B, a-b) are never used as replacement tokens",
+        "textx.tx is asked twice per text: grammar_model_from_str(text), and through one file name per worker "
+        "that is rewritten for every text (grammar_model_from_file / grammar_model_from_str(.., file_name=..)); "
+        "both answers must be the verdict for that text",
     ]
     # (M) + enumeration
     with ThreadPoolExecutor(max_workers=2) as ex:
@@ -110,7 +117,7 @@ def run(rep):
     # oracle (TLC) and observation (real code) side by side
     with ThreadPoolExecutor(max_workers=2) as ex:
         f_or = ex.submit(mg.oracle, cases, sorted(fid_of))
-        f_ob = ex.submit(mg.observe, cases, ("lang", "tx"))
+        f_ob = ex.submit(mg.observe, cases, ("lang", "tx", "txf"))
         orc, st = f_or.result()
         obs = f_ob.result()
     rep.add_oracle("MetaGrammarOracle", st)
